@@ -553,6 +553,8 @@ func classify(e ast.Expr, local map[string]string) string {
 		return "ChSessSend"
 	case "c.Done()", "c.ctx.Done()":
 		return "ChDone"
+	case "c.sess.RecvDone()":
+		return "ChRecvDone"
 	case "ctx.Done()":
 		return "ChCtx"
 	case "timer.C", "sendCtx.Done()", "to.C":
